@@ -156,7 +156,7 @@ func condvar(kind string) string {
 }
 
 func runC07(r *kit.Run) {
-	n := int64(r.Scale(700, 100000))
+	n := int64(r.Scale(1400, 100000))
 	for i := int64(0); i < n && !r.Stopped(); i++ {
 		if !r.Mine(i) {
 			continue
